@@ -16,16 +16,17 @@ def _tmpdir():
     os.makedirs(d, exist_ok=True)
     return d
 
+_SLOW = [0]         # cases that ran out of time and that the caller classifies as slow by design (not counted towards MAX_TIMEOUTS)
 _TIMEOUTS = [0]     # timeouts seen in this process: after the first one the budget per batch shrinks (a change that makes the code hang on a class of
                     # inputs must not make the check run for hours: every hanging case is reported, each costs seconds)
 
 MAX_TIMEOUTS = 12
 
 def _budget(nlines, timeout):
-    if _TIMEOUTS[0] == 0: return min(timeout, 30 + 0.05 * nlines)
+    if _TIMEOUTS[0] + _SLOW[0] == 0: return min(timeout, 30 + 0.05 * nlines)
     return min(timeout, 6 + 0.01 * nlines)
 
-def _run_file(exe, lines, timeout):
+def _run_file(exe, lines, timeout, exempt=None):
     timeout = _budget(len(lines), timeout)
     fd, path = tempfile.mkstemp(suffix=".cases", dir=_tmpdir())
     with os.fdopen(fd, "w") as f:
@@ -39,12 +40,16 @@ def _run_file(exe, lines, timeout):
     except subprocess.TimeoutExpired as e:
         out = (e.stdout or b"").decode("latin-1").split("\n")
         if out and out[-1] == "": out.pop()
+        k = len(out)
+        if exempt is not None and k < len(lines) and exempt(lines[k]):
+            _SLOW[0] += 1
+            return out, -9, "SLOW-BY-DESIGN after %ss" % timeout
         _TIMEOUTS[0] += 1
         return out, -9, "TIMEOUT after %ss: the case did not terminate" % timeout
     finally:
         os.remove(path)
 
-def run_impl(exe, lines, timeout=600):
+def run_impl(exe, lines, timeout=600, exempt=None):
     """returns a list with one entry per case line: the result line, or ('CRASH', rc, stderr) for the
     case at which the process died (sanitizer abort, signal, timeout).  Leak reports at exit are attributed
     by re-running the chunk case by case."""
@@ -55,7 +60,7 @@ def run_impl(exe, lines, timeout=600):
         if _TIMEOUTS[0] >= MAX_TIMEOUTS:
             # enough cases that do not terminate have been found: the remaining ones are not run
             res.extend([("CRASH", -9, "TIMEOUT after 0s: not run, %d earlier cases did not terminate" % _TIMEOUTS[0])] * (n - i)); break
-        out, rc, err = _run_file(exe, lines[i:], timeout)
+        out, rc, err = _run_file(exe, lines[i:], timeout, exempt)
         if rc == 0 and len(out) == n - i:
             res.extend(out); break
         if len(out) < n - i:
@@ -68,17 +73,17 @@ def run_impl(exe, lines, timeout=600):
         if n - i == 1:
             res.append(("CRASH", rc, err[-6000:])); break
         mid = (n - i) // 2
-        res.extend(run_impl(exe, lines[i:i + mid], timeout))
-        res.extend(run_impl(exe, lines[i + mid:], timeout))
+        res.extend(run_impl(exe, lines[i:i + mid], timeout, exempt))
+        res.extend(run_impl(exe, lines[i + mid:], timeout, exempt))
         break
     return res
 
-def run_impl_sharded(exe, lines, shards=16, timeout=600):
-    if len(lines) < 64: return run_impl(exe, lines, timeout)
+def run_impl_sharded(exe, lines, shards=16, timeout=600, exempt=None):
+    if len(lines) < 64: return run_impl(exe, lines, timeout, exempt)
     k = (len(lines) + shards - 1) // shards
     chunks = [lines[j:j + k] for j in range(0, len(lines), k)]
     with ThreadPoolExecutor(max_workers=shards) as ex:
-        parts = list(ex.map(lambda c: run_impl(exe, c, timeout), chunks))
+        parts = list(ex.map(lambda c: run_impl(exe, c, timeout, exempt), chunks))
     return [x for p in parts for x in p]
 
 def run_model(lines, timeout=900, shards=16):
